@@ -330,6 +330,8 @@ type c01Static struct {
 	C      chan int
 	Inner  c01Inner
 	PInner *c01Inner
+	// a second pointer field of the same struct type (Primary / Backup), always non-nil in the defaults
+	PInner2 *c01Inner
 	c01Emb
 	F    func() int
 	Last float64
@@ -380,6 +382,7 @@ func c01StaticCase(w *fw.Worker, i int, r *fw.Rand) {
 	if r.Bool() {
 		def.PInner = &c01Inner{secret: 6, Host: "ph0", note: "pn"}
 	}
+	def.PInner2 = &c01Inner{secret: 8, Host: "backup-host", Port: 8080, note: "bn", Tags: []string{"b"}}
 	type innerL struct {
 		Host *string
 		Port *int
@@ -390,16 +393,17 @@ func c01StaticCase(w *fw.Worker, i int, r *fw.Rand) {
 		Label *string
 	}
 	type layer struct {
-		First  *int
-		Second *string
-		Third  map[string]int
-		Inner  *innerL
-		PInner *innerL
-		C01Emb *embL `name:"c01Emb"`
-		Last   *float64
-		P      *int
-		Q      *int
-		Burst  *int
+		First   *int
+		Second  *string
+		Third   map[string]int
+		Inner   *innerL
+		PInner  *innerL
+		PInner2 *innerL
+		C01Emb  *embL `name:"c01Emb"`
+		Last    *float64
+		P       *int
+		Q       *int
+		Burst   *int
 	}
 	shareMode := r.Intn(3)
 	switch shareMode {
@@ -421,6 +425,11 @@ func c01StaticCase(w *fw.Worker, i int, r *fw.Rand) {
 	if def.PInner != nil {
 		cp := *def.PInner
 		want.PInner = &cp
+	}
+	{
+		cp := *def.PInner2
+		cp.Tags = append([]string(nil), def.PInner2.Tags...)
+		want.PInner2 = &cp
 	}
 	n := r.Range(1, 4)
 	var srcs []dials.Source
@@ -484,6 +493,14 @@ func c01StaticCase(w *fw.Worker, i int, r *fw.Rand) {
 				want.PInner = &c01Inner{}
 			}
 			want.PInner.Port = v
+		}
+		if r.Bool() {
+			// only part of the second pointer-to-struct is set: the rest keeps its default
+			il := &innerL{}
+			v := next()
+			il.Port = &v
+			l.PInner2 = il
+			want.PInner2.Port = v
 		}
 		if r.Bool() {
 			v := next()
@@ -581,10 +598,10 @@ type c01LiveSrc struct {
 	// keep: this watcher keeps one value object, rewrites it in place and reports the same pointer
 	keep bool
 	obj  reflect.Value
-	mu  sync.Mutex
-	cur [4]any // nil = unset; A,B string; C int; D int
-	wa  dials.WatchArgs
-	typ *dials.Type
+	mu   sync.Mutex
+	cur  [4]any // nil = unset; A,B string; C int; D int
+	wa   dials.WatchArgs
+	typ  *dials.Type
 }
 
 func (s *c01LiveSrc) value(t reflect.Type, cur [4]any) reflect.Value {
